@@ -49,11 +49,18 @@ func Path() string {
 
 func load() {
 	once.Do(func() {
-		b, err := os.ReadFile(Path())
-		if err != nil {
-			return
+		if b, err := os.ReadFile(Path()); err == nil {
+			_ = json.Unmarshal(b, &loaded)
 		}
-		_ = json.Unmarshal(b, &loaded)
+		// per-property files next to it: known_findings.d/*.json
+		more, _ := filepath.Glob(filepath.Join(filepath.Dir(Path()), "known_findings.d", "*.json"))
+		for _, m := range more {
+			var f FileT
+			if b, err := os.ReadFile(m); err == nil && json.Unmarshal(b, &f) == nil {
+				loaded.Findings = append(loaded.Findings, f.Findings...)
+				loaded.Fixed = append(loaded.Fixed, f.Fixed...)
+			}
+		}
 		for _, f := range loaded.Findings {
 			byID[f.ID] = f
 		}
